@@ -1,6 +1,8 @@
 (* C05 — property theorems only (proved in C05/Proofs*.v), instantiated with the memory orders
-   re-extracted from the code on this run (gen/Params_C05.v). *)
-From MV Require Import C05.Model C05.ProofsTs gen.Params_C05.
+   re-extracted from the code on this run (gen/Params_C05.v).  Every theorem quantifies over ALL
+   schedules (lists of (thread, choice); choice 1 = spurious weak-CAS failure), any number of threads,
+   any capacity, any scripts. *)
+From MV Require Import C05.Model C05.ProofsSowr C05.ProofsRing C05.ProofsTs C05.ProofsTsInv gen.Params_C05.
 
 (* side condition on the code's memory orders (ts pool): acquire load / release store of free_idx,
    acquire test-and-set / release clear of the free spinlock *)
@@ -8,9 +10,80 @@ Theorem c05_memory_orders_sufficient : ts_mo_ok code_params = true.
 Proof. vm_compute. reflexivity. Qed.
 Print Assumptions c05_memory_orders_sufficient.
 
-(* many allocators: the property is refuted inside the known class (witness: the ABA schedule) *)
+(* ---- sowr pool, documented usage (Appendix B): allocations only by thread a, frees only by thread f,
+   free b releases b and everything allocated before it; capacity a power of two dividing 2^32;
+   the run may start at any multiple [base] of the capacity (uint32 wrap of alloc_idx included) ---- *)
+Theorem sowr_no_double_handout : forall cap base a f n scripts sched,
+  sowr_geometry cap base -> sowr_usage a f scripts ->
+  let s := sowr_run code_params cap base n scripts sched in
+  s_dups s = 0%nat /\ NoDup (map fst (s_out s)) /\ (s_A s - s_Fl s <= cap - 1)%Z.
+Proof.
+  intros cap base a f n scripts sched Hg Hu s. split.
+  - exact (sowr_no_double_handout_all code_params cap base a f n scripts sched Hg Hu).
+  - exact (sowr_outstanding_distinct code_params cap base a f n scripts sched Hg Hu).
+Qed.
+Print Assumptions sowr_no_double_handout.
+
+Theorem sowr_exhaustion_exact : forall cap base a f n scripts sched,
+  sowr_geometry cap base -> sowr_usage a f scripts ->
+  s_badnull (sowr_run code_params cap base n scripts sched) = 0%nat.
+Proof. exact (sowr_exhaustion_exact_all code_params). Qed.
+Print Assumptions sowr_exhaustion_exact.
+
+Theorem sowr_serves_forever : forall cap base a f n scripts sched r,
+  sowr_geometry cap base -> sowr_usage a f scripts ->
+  let s := sowr_run code_params cap base n scripts sched in
+  (a < s_n s)%nat -> s_pc (s_thr s a) = SBegin -> s_script (s_thr s a) = OpAlloc :: r ->
+  (s_A s - s_Fl s < cap - 1)%Z ->
+  let s3 := exec ssys (sstep code_params) s [(a, 0); (a, 0); (a, 0)]%nat in
+  (s_A s + 1 <= s_A s3)%Z /\ s_dups s3 = 0%nat /\ s_badnull s3 = 0%nat.
+Proof. exact (sowr_serves_forever_all code_params). Qed.
+Print Assumptions sowr_serves_forever.
+
+(* ---- ring pool: allocations serialised (threadsafe_alloc, or plain alloc by one thread a) ---- *)
+Theorem ringpool_no_double_handout : forall cap n locked a scripts sched,
+  ring_usage a locked scripts ->
+  let s := ring_run code_params cap n locked scripts sched in
+  r_dups s = 0%nat /\ NoDup (map fst (r_out s)) /\ (forall b, In b (map fst (r_out s)) -> r_inuse s b = 1%nat).
+Proof. exact (ringpool_no_double_handout_all code_params). Qed.
+Print Assumptions ringpool_no_double_handout.
+
+(* ---- ts pool, one allocator thread, any number of freers ---- *)
+Theorem ts_single_allocator_ok : forall cap n scripts a sched,
+  (0 < cap)%nat -> single_allocator a n scripts -> TsOk cap (ts_run code_params cap n scripts sched).
+Proof. exact (ts_single_allocator_ok_all code_params). Qed.
+Print Assumptions ts_single_allocator_ok.
+
+(* ---- ts pool, many allocators: known-finding pattern (DESIGN.md 3.2) ----
+   full statement (REFUTED):  forall sched, t_dups (ts_run code_params cap n scripts sched) = 0.
+   known class: >= 2 allocator threads and a commit (successful CAS / cached_free_pos write-back) inside
+   another allocator's racy window (ghost flag t_race, windows W1-W3 of C05/ProofsTs.v). *)
+Theorem ts_no_double_handout_partial : forall cap n scripts sched,
+  (0 < cap)%nat ->
+  let s := ts_run code_params cap n scripts sched in
+  in_known_class scripts n s = false -> t_dups s = 0%nat /\ NoDup (map fst (t_out s)).
+Proof. exact (ts_no_double_handout_partial_all code_params). Qed.
+Print Assumptions ts_no_double_handout_partial.
+
 Theorem ts_aba_refuted : exists sched,
   let s := ts_run code_params 4 2 aba_scripts sched in
   in_known_class aba_scripts 2 s = true /\ t_dups s <> 0%nat.
 Proof. exists aba_sched. vm_compute. split; [reflexivity|discriminate]. Qed.
 Print Assumptions ts_aba_refuted.
+
+(* the racy cached_free_pos alone (no ABA) also leads to a double hand-out: the class is wider than W1 *)
+Theorem ts_cache_race_refuted : exists sched,
+  let s := ts_run code_params 4 2 cache_scripts sched in
+  in_known_class cache_scripts 2 s = true /\ t_dups s <> 0%nat.
+Proof. exists cache_sched. vm_compute. split; [reflexivity|discriminate]. Qed.
+Print Assumptions ts_cache_race_refuted.
+
+(* exhaustion exactness does NOT extend to many allocators either (second known class, ts-stale-null):
+   with two allocator threads, without any racy window being hit and without a double hand-out, NULL is
+   returned while a single block is out of a ring of capacity 4 *)
+Theorem ts_stale_null_refuted : exists sched,
+  let s := ts_run code_params 4 2 stale_scripts sched in
+  count_allocators stale_scripts 2 = 2%nat /\ t_race s = false /\ t_dups s = 0%nat /\
+  t_badnull s <> 0%nat /\ (t_A s - t_F s < 4 - 1)%nat.
+Proof. exists stale_sched. vm_compute. repeat split; try reflexivity; try discriminate. lia. Qed.
+Print Assumptions ts_stale_null_refuted.
